@@ -1,2 +1,11 @@
 import Spade.Properties.C01
 #print axioms Spade.C01_check_iff
+#print axioms Spade.C01_spec_is_empty_circumcircle
+#print axioms Spade.C01_contained_in_circumference_spec
+#print axioms Spade.C01_test_symmetric
+#print axioms Spade.C01_flip_potential
+#print axioms Spade.C01_flip_decreases
+#print axioms Spade.incircle_eq_power
+#print axioms Spade.incircle_pos_iff_inside
+#print axioms Spade.circumcenter_equidistant_b
+#print axioms Spade.circumcenter_equidistant_c
